@@ -141,9 +141,39 @@ def tlc_parallel(ctx, jobs, width=None):
     return res
 
 
-def confirm_hang(ctx, binary, case):
+def enumerate_strings(ctx, binary, alphabet, maxlen):
+    """bounded exhaustive enumeration by the driver; resumes after a watchdog abort.  Nothing is judged here."""
+    espec = ctx.path("enum.json")
+    with open(espec, "w") as f:
+        json.dump({"alphabet": alphabet, "maxlen": maxlen}, f)
+    eout = ctx.path("enum-out.ndjson")
+    res = {"fails": [], "hangs": [], "summary": None, "crash": "", "next": 0}
+    for attempt in range(7):
+        if os.path.exists(eout):
+            os.remove(eout)
+        p = ctx.run_bin(binary, ["-enum", espec, "-out", eout, "-skip", str(res["next"])], timeout=3000, check=False)
+        rows = lib.read_ndjson(eout) if os.path.exists(eout) else []
+        for r in rows:
+            if r["kind"] == "enumfail":
+                res["fails"].append(r)
+            elif r["kind"] == "hang":
+                # the first two are confirmed by a second attempt with a generous limit; later ones are taken as hangs
+                ok = len(res["hangs"]) >= 2 or confirm_hang(ctx, binary, {"id": "confirm", "kind": "text", "b64": r["b64"]}, "confirm-enum")
+                res["hangs"].append((r, ok))
+                res["next"] = int(r["id"].split("#")[1]) + 1
+            elif r["kind"] == "enum":
+                res["summary"] = r
+        if p.returncode == 0:
+            break
+        if p.returncode != 3:
+            res["crash"] = (p.stderr or "")[-1500:]
+            break
+    return res
+
+
+def confirm_hang(ctx, binary, case, tag="confirm"):
     """second attempt with a generous limit: a hang that reproduces is an observed non-termination"""
-    recs, inc = run_driver(ctx, binary, [case], "confirm", extra=["-watchdog", "20s"], timeout=120)
+    recs, inc = run_driver(ctx, binary, [case], tag, extra=["-watchdog", "20s"], timeout=120)
     return bool(inc)
 
 
@@ -319,12 +349,17 @@ class Judge:
         self.counter = {}
         self.pending = []   # (source, bytes, class, detail)
         self.pending_limits = []
+        self.families = {}
 
     def report(self, key, what, obj):
-        """at most 3 instances per key are handed to ctx.violation (replay files), the rest is only counted"""
+        """at most 3 instances per key and 8 per family of keys (keys that differ in a trailing hash only) are handed to
+        ctx.violation (replay files); the rest is only counted"""
         n = self.counter.get(key, 0)
         self.counter[key] = n + 1
-        if n < 3:
+        fam = re.sub(r":[0-9a-f]{8}$", "", key)
+        f = self.families.get(fam, 0)
+        if n < 3 and (fam == key or f < 8):
+            self.families[fam] = f + 1
             self.ctx.violation(key, what, obj)
 
     def limits(self, doc, L, F, syntactic):
@@ -576,7 +611,21 @@ def run(ctx):
         mut = not (quick and d["src"] in ("sim", "sim-wide", "sdl-sim") and (i + ctx.seed) % 3 != 0)
         cases.append({"id": d["id"], "kind": "doc", "toks": [t["s"] for t in d["toks"]], "gq": "s" if d["src"].startswith("sdl") else "q",
                       "lims": [list(p) for p in lims], "mut": mut, "variants": 3})
-    recs, incidents = run_driver_sharded(ctx, binary, cases, "docs", shards)
+    from concurrent.futures import ThreadPoolExecutor
+    maxlen = 4 if quick else 5
+    depths = [1000, 100000] if quick else [1000, 100000, 1000000, 3000000]
+    dcases = []
+    for fam in consts["deep"]:
+        for n in ([500, 4000] if fam["slow"] else depths):
+            dcases.append({"id": "deep-%s-%d" % (fam["name"], n), "kind": "deep", "pre": fam["pre"], "open": fam["open"], "mid": fam["mid"],
+                           "close": fam["close"], "post": fam["post"], "n": n, "lims": [[50, 0]]})
+    with ThreadPoolExecutor(max_workers=3) as ex:      # the three replays are independent; judged sequentially below
+        f_docs = ex.submit(run_driver_sharded, ctx, binary, cases, "docs", shards)
+        f_enum = ex.submit(enumerate_strings, ctx, binary, consts["alphabet"], maxlen)
+        f_deep = ex.submit(run_driver, ctx, binary, dcases, "deep", ["-watchdog", "120s"], 3000)
+        recs, incidents = f_docs.result()
+        enum_res = f_enum.result()
+        drecs, dinc = f_deep.result()
     hang_seen = 0
     for idx, kind, det in incidents:
         if kind == "abandoned":
@@ -658,40 +707,19 @@ def run(ctx):
                 stats["model_stats_match" if lr["statF"] == d["implF"] else "model_stats_differ"] += 1
 
     # ---- 4. bounded exhaustive enumeration over the specification's alphabet -----------------------
-    maxlen = 4 if quick else 5
-    espec = ctx.path("enum.json")
-    with open(espec, "w") as f:
-        json.dump({"alphabet": consts["alphabet"], "maxlen": maxlen}, f)
-    eout = ctx.path("enum-out.ndjson")
-    eskip = 0
-    enum_summary = None
     enum_fail = 0
-    enum_hangs = 0
-    for attempt in range(7):
-        if os.path.exists(eout):
-            os.remove(eout)
-        p = ctx.run_bin(binary, ["-enum", espec, "-out", eout, "-skip", str(eskip)], timeout=3000, check=False)
-        rows = lib.read_ndjson(eout) if os.path.exists(eout) else []
-        for r in rows:
-            if r["kind"] == "enumfail":
-                enum_fail += 1
-                judge.failure("enumerated", unb64(r["b64"]), r["class"], r["det"])
-            elif r["kind"] == "hang":
-                enum_hangs += 1
-                # the first two are confirmed by a second attempt with a generous limit; later ones are only counted
-                if enum_hangs > 2 or confirm_hang(ctx, binary, {"id": "confirm", "kind": "text", "b64": r["b64"]}):
-                    judge.failure("enumerated", unb64(r["b64"]), "hang", r["why"])
-                else:
-                    ctx.notes.append("watchdog fired once for %r but the input terminated on the second attempt" % unb64(r["b64"]))
-                eskip = int(r["id"].split("#")[1]) + 1
-            elif r["kind"] == "enum":
-                enum_summary = r
-        if p.returncode == 0:
-            break
-        if p.returncode != 3:
-            judge.report("crash:enumeration", "the process died during the enumeration of short byte strings: %s" % (p.stderr or "")[-300:],
-                         {"kind": "enum", "stderr": (p.stderr or "")[-1500:]})
-            break
+    for r in enum_res["fails"]:
+        enum_fail += 1
+        judge.failure("enumerated", unb64(r["b64"]), r["class"], r["det"])
+    for r, confirmed in enum_res["hangs"]:
+        if confirmed:
+            judge.failure("enumerated", unb64(r["b64"]), "hang", r["why"])
+        else:
+            ctx.notes.append("watchdog fired once for %r but the input terminated on the second attempt" % unb64(r["b64"]))
+    if enum_res["crash"]:
+        judge.report("crash:enumeration", "the process died during the enumeration of short byte strings: %s" % enum_res["crash"][-300:],
+                     {"kind": "enum", "stderr": enum_res["crash"]})
+    enum_summary = enum_res["summary"]
     if enum_summary:
         trace.append({"k": "enum", "kk": enum_summary["k"], "maxlen": enum_summary["maxlen"], "count": enum_summary["count"] + enum_summary["skipped"],
                       "alphabet": enum_summary["alphabet"]})
@@ -699,17 +727,10 @@ def run(ctx):
         raise lib.Inconclusive("the enumeration did not finish")
     else:
         # failures were observed and are reported; the enumeration is abandoned instead of waiting for every hanging string
-        ctx.notes.append("enumeration abandoned at index %d after %d hangs / a crash" % (eskip, enum_hangs))
-        enum_summary = {"k": len(consts["alphabet"]), "maxlen": maxlen, "count": eskip, "accepted": 0, "digest": "incomplete", "skipped": 0}
+        ctx.notes.append("enumeration abandoned at index %d after %d hangs / a crash" % (enum_res["next"], len(enum_res["hangs"])))
+        enum_summary = {"k": len(consts["alphabet"]), "maxlen": maxlen, "count": enum_res["next"], "accepted": 0, "digest": "incomplete", "skipped": 0}
 
-    # ---- 5. deep nesting (directed by DeepFamilies) -----------------------------------------------
-    depths = [1000, 100000] if quick else [1000, 100000, 1000000, 3000000]
-    dcases = []
-    for fam in consts["deep"]:
-        for n in ([500, 4000] if fam["slow"] else depths):
-            dcases.append({"id": "deep-%s-%d" % (fam["name"], n), "kind": "deep", "pre": fam["pre"], "open": fam["open"], "mid": fam["mid"],
-                           "close": fam["close"], "post": fam["post"], "n": n, "lims": [[50, 0]]})
-    drecs, dinc = run_driver(ctx, binary, dcases, "deep", extra=["-watchdog", "120s"], timeout=3000)
+    # ---- 5. deep nesting (directed by DeepFamilies; replayed above) -------------------------------
     deep_ok = 0
     for i, c in enumerate(dcases):
         o = drecs.get(i)
